@@ -5,26 +5,33 @@ From RP Require Import Lib.Base Lib.Utf8 Model.Mono Spec.Clip Spec.TextBox
 From Coq Require Import ZifyBool.
 Ltac Zify.zify_post_hook ::= Z.div_mod_to_equations.
 
+Lemma all_from_true n : forall z f, all_from n z f = true <-> forall k, z <= k < z + Z.of_nat n -> f k = true.
+Proof.
+  induction n as [|n IH]; intros z f; simpl all_from.
+  - split; auto. intros _ k Hk. lia.
+  - rewrite andb_true_iff, IH. split.
+    + intros [H0 H1] k Hk. destruct (Z.eq_dec k z) as [->|]; auto. apply H1. lia.
+    + intros H. split; [apply H; lia | intros k Hk; apply H; lia].
+Qed.
+
+Lemma all_rect_true x0 y0 w h f :
+  all_rect x0 y0 w h f = true <-> forall c r, x0 <= c < x0 + w -> y0 <= r < y0 + h -> f c r = true.
+Proof.
+  unfold all_rect. rewrite all_from_true. split.
+  - intros H c r Hc Hr. specialize (H r ltac:(lia)). rewrite all_from_true in H. apply H. lia.
+  - intros H r Hr. apply all_from_true. intros c Hc. apply H; lia.
+Qed.
+
 Lemma all_rect_intro x0 y0 w h f :
   (forall c r, x0 <= c < x0 + w -> y0 <= r < y0 + h -> f c r = true) -> all_rect x0 y0 w h f = true.
-Proof.
-  intros H. unfold all_rect. apply forallb_forall. intros r Hr. apply forallb_forall. intros c Hc.
-  apply in_seq in Hr, Hc. apply H; lia.
-Qed.
+Proof. apply all_rect_true. Qed.
 
 Lemma all_rect_elim x0 y0 w h f :
   all_rect x0 y0 w h f = true -> forall c r, x0 <= c < x0 + w -> y0 <= r < y0 + h -> f c r = true.
-Proof.
-  unfold all_rect. intros H c r Hc Hr.
-  rewrite forallb_forall in H.
-  assert (Hr' : In (Z.to_nat (r - y0)) (seq 0 (Z.to_nat h))) by (apply in_seq; lia).
-  specialize (H _ Hr'). rewrite forallb_forall in H.
-  assert (Hc' : In (Z.to_nat (c - x0)) (seq 0 (Z.to_nat w))) by (apply in_seq; lia).
-  specialize (H _ Hc').
-  replace (x0 + Z.of_nat (Z.to_nat (c - x0))) with c in H by lia.
-  replace (y0 + Z.of_nat (Z.to_nat (r - y0))) with r in H by lia.
-  exact H.
-Qed.
+Proof. apply all_rect_true. Qed.
+
+Lemma vis_px W H wib d c r : vis W H (px wib d) c r = pxv W H wib d c r.
+Proof. reflexivity. Qed.
 
 (* ---- canvases as NewImage creates them ---- *)
 Definition g0 (W H : Z) : geom := ig (new_image W H).
@@ -102,7 +109,7 @@ Proof.
   intros HW HH Hwr Hs Hl Hwf Hn.
   destruct (g0_fields W H HW) as (E1 & E2 & E3 & E4 & E5 & _).
   destruct (ink_in_box (g0 W H) t cx cy s d Hwr Hs Hl Hwf Hn) as [_ E].
-  unfold box_law. apply all_rect_intro. intros c r Hc Hr.
+  unfold box_law, box_law_p. apply all_rect_intro. intros c r Hc Hr.
   rewrite E2, E3, E4, E5 in E.
   destruct (Bool.eqb _ _) eqn:Q; [reflexivity|]. cbn [orb].
   apply Bool.eqb_false_iff in Q.
@@ -119,7 +126,8 @@ Theorem translation_law_holds W H t cx cy dx dy s :
     (render_at (g0 W H) t cx cy s (d0 W H)) (render_at (g0 W H) t (cx + dx) (cy + dy) s (d0 W H)) dx dy = true.
 Proof.
   intros HW HH Hwr Hs Hl Hn F1 F2.
-  unfold translation_law. apply all_rect_intro. intros c r _ _.
+  unfold translation_law, translation_law_p. apply all_rect_intro. intros c r _ _.
+  rewrite !vis_px.
   rewrite <- !(pxr_g0 W H) by auto.
   rewrite (translation (g0 W H) t cx cy dx dy s (d0 W H) (d0 W H)); auto using blank_new_image, box_fits_cell.
   apply Bool.eqb_reflx.
@@ -136,7 +144,8 @@ Theorem scale_law_holds W H t cx cy s :
     cx cy (tsh t) (tsv t) = true.
 Proof.
   intros HW HH Hwr Hs Hl Hn Hsc F.
-  unfold scale_law. apply all_rect_intro. intros c r _ _.
+  unfold scale_law, scale_law_p. apply all_rect_intro. intros c r _ _.
+  rewrite !vis_px.
   rewrite <- (pxr_g0 W H) by auto.
   rewrite (scale_string (g0 W H) t cx cy s (d0 W H) (d0 W H)); auto using blank_new_image, box_fits_cell.
   destruct (scale_src cx cy (tsh t) (tsv t) c r) as [c1 r1].
@@ -155,7 +164,8 @@ Theorem glyph_law_holds W H t x y x1 y1 s :
     cs ws (tspacing t) (tsh t) (tsv t) (font_bbh (tfont t)) x y x1 y1 = true.
 Proof.
   intros HW HH Hwr Hs cs ws F1 F2.
-  unfold glyph_law. apply all_rect_intro. intros a b _ _.
+  unfold glyph_law, glyph_law_p. apply all_rect_intro. intros a b _ _.
+  rewrite !vis_px.
   rewrite <- (pxr_g0 W H) by auto.
   rewrite (scale_glyph (g0 W H) t x y x1 y1 s (d0 W H) (d0 W H)); auto using blank_new_image.
   - fold cs ws. destruct (src_pixel cs ws _ _ _ _ x y x1 y1 a b) as [[a1 b1]|]; [|reflexivity].
